@@ -42,7 +42,7 @@ def cases(tier, sd):
     for name in MODS:
         for r in range(reps):
             out.append(dict(kind='module', module=name, seed=100 * sd + r))
-    for r in range(1 if tier == "quick" else 8):
+    for r in range(2 if tier == "quick" else 8):
         out.append(dict(kind='icpert', seed=100 * sd + r))
     return out
 
@@ -102,6 +102,20 @@ def close(res, label, tag, got, want, tol, scale=None):
 
 def run_module(spec, res):
     name = spec['module']
+    M = mod(name)
+    if name == 'Schwarzschild_isotropic' and spec['seed'] % 2 == 1:
+        # the mass is a module constant the user may set before use
+        old = M.M
+        M.M = [2.5, 0.4][spec['seed'] // 2 % 2]
+        try:
+            return _run_module(spec, res, tag_extra=f"M={M.M}")
+        finally:
+            M.M = old
+    return _run_module(spec, res)
+
+
+def _run_module(spec, res, tag_extra=""):
+    name = spec['module']
     cfg = MODS[name]
     M = mod(name)
     rng = np.random.default_rng([int(spec['seed']), 17, sum(map(ord, name))])
@@ -112,7 +126,8 @@ def run_module(spec, res):
     if name == 'Schwarzschild_isotropic':
         sg = rng.choice([-1, 1], (3,) + shp)
         x, y, z = x * sg[0], y * sg[1], z * sg[2]
-    tbucket = f"t~{t0:.3g}"
+    tbucket = f"t~{t0:.3g}" + (" " + tag_extra if tag_extra else "")
+    coords0 = [x.copy(), y.copy(), z.copy()]
     Lam = 0.0
     if cfg.get('Lam') == 'module':
         Lam = float(M.Lambda)
@@ -231,6 +246,11 @@ def run_module(spec, res):
     if name == 'Conformally_flat':
         close(res, f"{name}.st_RicciS", tbucket, M.st_RicciS(x), ex['st_RicciS'], 1e-9,
               scale=curv)
+    # ---- the caller's coordinate arrays are inputs, not scratch space
+    res['observations'] += 1
+    if not all(np.array_equal(a, b) for a, b in zip(coords0, [x, y, z])):
+        common.add_violation(res, f"{name} modifies the caller's coordinate arrays", {})
+        x, y, z = coords0
     # ---- data() agrees with the individual functions
     if hasattr(M, 'data'):
         d = M.data(t0, x, y, z)
@@ -261,8 +281,13 @@ def run_icpert(spec, res):
     lam = (L, L, L)
     tag = f"t~{t0:.3g}"
     resid = []
+    kk = 2 * np.pi / L
     for amp in (1e-3, 5e-4):
         Rc = ICPertFLRW.Rc_func(fd.x, fd.y, fd.z, (amp, amp * 0.7, amp * 1.3), lam)
+        if spec['seed'] % 2 == 0:
+            # a user-supplied perturbation with non-vanishing mixed derivatives
+            Rc = Rc + amp * np.sin(kk * fd.x + 0.3) * np.cos(kk * fd.y) * np.sin(kk * fd.z - 0.2) \
+                 + 0.5 * amp * np.sin(kk * (fd.x - fd.y + fd.z))
         with common.Quiet():
             gam = ICPertFLRW.gammadown3(EdS, fd, t0, Rc)
             K = ICPertFLRW.Kdown3(EdS, fd, t0, Rc)
@@ -272,8 +297,10 @@ def run_icpert(spec, res):
                            - ICPertFLRW.gammadown3(EdS, fd, t0 - k * h, Rc))
                       for k, c in w.items()) / h
         if amp == 1e-3:
+            # per component class, each relative to the size of its own perturbation part
+            pert = np.abs(K - K.mean(axis=(-1, -2, -3), keepdims=True)).max()
             close(res, "ICPertFLRW.Kdown3 = -1/2 d_t gammadown3 (EdS)", tag, K, -0.5 * dtg,
-                  1e-8, scale=np.abs(K).max())
+                  1e-6, scale=pert)
         with common.Quiet():
             delta = ICPertFLRW.delta1(EdS, fd, t0, Rc)
             rel = harness.make_rel(fd, {'gammadown3': gam, 'Kdown3': K,
